@@ -15,6 +15,8 @@ import (
 type LFile struct {
 	Path string `json:"path"`
 	Docs []int  `json:"docs"`
+	JSON bool   `json:"json,omitempty"` // rendered as a stream of JSON objects (path ends in .json)
+	Link bool   `json:"link,omitempty"` // stored outside the directory and reached through a symlink
 }
 
 // Layout assigns every document of a resource set to a file and a position.
@@ -35,10 +37,40 @@ func joinDocs(docs []Doc, idx []int) string {
 	return sb.String()
 }
 
+func joinDocsJSON(docs []Doc, idx []int) (string, bool) {
+	var sb strings.Builder
+	for _, i := range idx {
+		b, err := yaml.YAMLToJSON([]byte(docs[i].Text))
+		if err != nil || strings.TrimSpace(string(b)) == "null" {
+			return "", false
+		}
+		sb.Write(b)
+		sb.WriteString("\n")
+	}
+	return sb.String(), true
+}
+
 func (l Layout) fs(prefix string, docs []Doc) []FSEntry {
 	res := []FSEntry{{Path: prefix, Dir: true}}
-	for _, f := range l {
-		res = append(res, FSEntry{Path: filepath.Join(prefix, f.Path), Text: joinDocs(docs, f.Docs)})
+	for k, f := range l {
+		text := joinDocs(docs, f.Docs)
+		path := f.Path
+		if f.JSON {
+			if t, ok := joinDocsJSON(docs, f.Docs); ok {
+				text = t
+			} else {
+				path = strings.TrimSuffix(path, ".json") + ".yaml"
+			}
+		}
+		if f.Link {
+			store := fmt.Sprintf("%s.store/s%03d%s", prefix, k, filepath.Ext(path))
+			rel, err := filepath.Rel(filepath.Dir(filepath.Join(prefix, path)), store)
+			if err == nil {
+				res = append(res, FSEntry{Path: store, Text: text}, FSEntry{Path: filepath.Join(prefix, path), Link: rel})
+				continue
+			}
+		}
+		res = append(res, FSEntry{Path: filepath.Join(prefix, path), Text: text})
 	}
 	return res
 }
@@ -52,8 +84,8 @@ func canonicalLayout(n int) Layout {
 	return l
 }
 
-var layoutDirs = []string{"", "", "a", "b/c", "zz"}
-var layoutExts = []string{".yaml", ".yaml", ".yml"}
+var layoutDirs = []string{"", "", "a", "b/c", "zz", "k.yaml"} // the last one: a directory named like a manifest
+var layoutExts = []string{".yaml", ".yaml", ".yml", ".json"}
 
 // randomLayout permutes the documents and cuts the permutation into files with names
 // whose lexical order (the order the directory walker uses) is itself random.
@@ -82,8 +114,9 @@ func randomLayout(r *rng, n int) Layout {
 		if len(cur) == 0 {
 			return
 		}
-		name := fmt.Sprintf("%s%02d%s", string(rune('a'+r.intn(26))), len(l), pick(r, layoutExts))
-		l = append(l, LFile{Path: filepath.Join(pick(r, layoutDirs), name), Docs: cur})
+		ext := pick(r, layoutExts)
+		name := fmt.Sprintf("%s%02d%s", string(rune('a'+r.intn(26))), len(l), ext)
+		l = append(l, LFile{Path: filepath.Join(pick(r, layoutDirs), name), Docs: cur, JSON: ext == ".json", Link: r.chance(1, 8)})
 		cur = []int{}
 	}
 	for k, i := range p {
@@ -111,7 +144,7 @@ func (l Layout) restrict(keep []int) Layout {
 			}
 		}
 		if len(d) > 0 {
-			res = append(res, LFile{Path: f.Path, Docs: d})
+			res = append(res, LFile{Path: f.Path, Docs: d, JSON: f.JSON, Link: f.Link})
 		}
 	}
 	return res
